@@ -16,6 +16,7 @@ type SpecCtx struct {
 	cur   *Snapshot      // nil: current state; otherwise evaluate heap reads in this snapshot
 	where string
 	bound int
+	grant bool // evaluating preconditions of the function under verification (tok() grants the token)
 }
 
 type specErr struct{ msg string }
@@ -202,6 +203,9 @@ func (sc *SpecCtx) load(p *Ptr) Val {
 		case PObj:
 			nm := heapName(e, p.RootT, p.Path+c.Path)
 			e.noteRef(nm, c)
+			if sc.bound == 0 && sc.cur == nil {
+				sc.st.instantiateForArray(nm, p.Root)
+			}
 			v.C = append(v.C, sel(sc.arr(nm, arrSort(c.Sort)), p.Root))
 		case PElem:
 			nm := elemsName(e, p.T, c.Path)
